@@ -42,7 +42,8 @@ def nest_depth(html, tags=("blockquote", "ul", "h1", "h2", "h3", "h4", "h5", "h6
 
 class C06(Spec):
     pid = "C06"
-    groups = ["vpub", "vrender"]
+    groups = ["vpub", "vrender", "vnet"]
+    no_compare_ops = ("net",)
     title = "Rendering any fetched object at any terminal size neither crashes nor hangs"
     raw_compare = False
     confirm_timing = True
@@ -52,7 +53,8 @@ class C06(Spec):
             "CollectionFromObject, NewLink and pub.New, then EVERY Tangible method: Name, Timestamp, String and Preview at widths "
             "-10..300, Parents, Children().Harvest, SelectLink for numbers -3..N+3 and huge, Media/ProfilePic/Banner, Creators/"
             "Recipients; plus Markup.Render of grammar documents with nesting 0..40 and <hr>/<pre>/lists inside, at widths -10..300. "
-            "A panic, a call slower than 5 s, or a single output text beyond 2 million runes is a violation. "
+            "Items built from FETCHED documents on the loopback simulator (listings of actors and posts with impostors, id-less and "
+            "malformed entries, remote page chains). A panic, a call slower than 5 s, or a single output text beyond 2 million runes is a violation. "
             "non-trivial = the object was accepted by its constructor and rendered.")
     assumptions = ["PARTIAL for the no-hang half: totality and panic-freedom of the rendering MODEL hold by construction (Gallina functions "
                    "are total) and the model equals the code on the C15/C12/C01 correspondences; cost is observed, and is known to be "
@@ -96,6 +98,33 @@ class C06(Spec):
                 c.op = "rendernm"
         return [Batch("c06", cases, env={"VERIF_CASE_TIMEOUT": "40"}, timeout=900, correspondence="pub constructors + Tangible methods return normally")]
 
+    def extra_checks(self, scratch, binary, rng, tier, report):
+        """items built from FETCHED documents (authors, parents, replies, outboxes resolved over the simulator): listings of actors
+        and posts with every kind of impostor, id-less and malformed entry, and remote page chains - nothing may panic or hang"""
+        import c09
+        import c10
+        import netgen
+        import runner
+        base = netgen.pick_port_base(rng)
+        cases = []
+        for _ in range(60 if tier == "quick" else 3000):
+            r = rng.random()
+            if r < 0.4:
+                cases.append(c09.case_of(c09.SPEC.post_world(rng, base)))
+            elif r < 0.7:
+                cases.append(c09.case_of(c09.SPEC.actor_world(rng, base)))
+            else:
+                cases.append(c10.SPEC.remote_world(rng, base).case())
+        b = Batch("c06-net", cases, config="[network]\ntimeout_seconds = 2\n", env={"VERIF_SIM_PORT_BASE": str(base), "VERIF_CASE_TIMEOUT": "40"},
+                  timeout=900, correspondence="items built from fetched documents return normally")
+        b.parallel = False
+        saved = self.oracle_filter
+        self.oracle_filter = {"well_formed_result"}
+        try:
+            runner.run_batches(self, scratch, binary, [b], report)
+        finally:
+            self.oracle_filter = saved
+
     def post_check(self, case, res):
         """a call slower than 5 s, or ONE output text beyond 2 million runes, is a runaway"""
         impl = res["impl"]
@@ -112,6 +141,8 @@ class C06(Spec):
                 if n > BIG_RUNES:
                     return "one output text of %d runes for a %d byte document" % (n, case.meta["size"])
                 i += 1 + n
+            return None
+        if case.op == "net":
             return None
         if case.op == "rendernm":
             ms = impl[-1]
